@@ -8,7 +8,17 @@ from vxlib.cbmc import Harness
 
 HERE = os.path.dirname(os.path.abspath(__file__))
 BU = 'src/include/souffle/datastructure/BTreeUtil.h'
-INST = dict(Key='int', Iter='const int*', Comp='vx_comp_int')
+INSTS = {
+    'int': dict(Key='int', Iter='const int*', Comp='vx_comp_int', native='',
+                clang_iter='const int *'),
+    # two-column key compared lexicographically through the REAL comparator<T> (operator< / > / == as std::array provides them)
+    'key2': dict(Key='vx_key2', Iter='const vx_key2*', Comp='vx_comp_key2', clang_iter='const vx_key2 *',
+                 native='struct vx_key2 { int c[2]; };\n'
+                        'inline bool operator<(const vx_key2& a, const vx_key2& b) { return a.c[0] < b.c[0] || (a.c[0] == b.c[0] && a.c[1] < b.c[1]); }\n'
+                        'inline bool operator>(const vx_key2& a, const vx_key2& b) { return b < a; }\n'
+                        'inline bool operator==(const vx_key2& a, const vx_key2& b) { return a.c[0] == b.c[0] && a.c[1] == b.c[1]; }\n'),
+}
+INST = INSTS['int']
 FNAMES = {'operator()': 'call', 'lower_bound': 'lower_bound', 'upper_bound': 'upper_bound'}
 
 
@@ -36,12 +46,23 @@ def extract(ctx):
         bt = blank(strip_comments(t))
         ctx.fact('BTreeUtil.h: %s has no data members and does not use `this` (R7: members are free functions)' % name,
                  re.search(r'\bthis\b', bt) is None and re.search(r'^\s*(?!template|inline|struct|public|private|return|auto|Iter|while|if|\}|\{)[\w:<>]+\s+\w+\s*(=[^;]*)?;\s*$', bt, re.M) is None)
-    inst = ''.join('template %s souffle::detail::%s::%s<%s, %s, vx_comp_int>(const %s&, %s, %s, vx_comp_int&) const;\n' %
-                   (INST['Iter'], s, f, INST['Key'], INST['Iter'], INST['Key'], INST['Iter'], INST['Iter'])
+    for tag, I in INSTS.items():
+        sub = {}
+        instantiate(ctx, raw, comp, tag, I, sub)
+        log.update({'[%s] %s' % (tag, k): v for k, v in sub.items()})
+    ctx.rewrites.update(log)
+    ctx.dropped += ['strategy_selection / default_strategy / updater (type-level selection, no run-time code)',
+                    'everything in BTree.h: concurrent insertion, optimistic locking, node splitting, hints, iteration, size, chunking (lambdas, std::vector, 8 template parameters: outside the front end)']
+
+
+def instantiate(ctx, raw, comp, tag, INST, log):
+    inst = ''.join('template %s souffle::detail::%s::%s<%s, %s, %s>(const %s&, %s, %s, %s&) const;\n' %
+                   (INST['Iter'], s, f, INST['Key'], INST['Iter'], INST['Comp'], INST['Key'], INST['Iter'], INST['Iter'], INST['Comp'])
                    for s in ('linear_search', 'binary_search') for f in ('operator()', 'lower_bound', 'upper_bound'))
-    ctx.write('native.cpp', '#include <cstddef>\n#include "raw.hpp"\nstruct vx_comp_int { souffle::detail::comparator<int> real; int operator()(const int& a, const int& b) const { return real(a, b); } };\n' + inst)
-    docs = rw.clang_ast('native.cpp', 'search', ctx.work)
-    text, n_auto = rw.r2_auto(raw, 'raw.hpp', docs, log, extra_types=('const int *',))
+    ctx.write('native_%s.cpp' % tag, '#include <cstddef>\n' + INST['native'] + '#include "raw.hpp"\nstruct %s { souffle::detail::comparator<%s> real; int operator()(const %s& a, const %s& b) const { return real(a, b); } };\n'
+              % (INST['Comp'], INST['Key'], INST['Key'], INST['Key']) + inst)
+    docs = rw.clang_ast('native_%s.cpp' % tag, 'search', ctx.work)
+    text, n_auto = rw.r2_auto(raw, 'raw.hpp', docs, log, extra_types=(INST['clang_iter'],))
     if n_auto < 10:
         raise ExtractError('R2 must fire for every `auto` of the search strategies (fired %d times)' % n_auto)
     # R7 + textual instantiation: hoist every member template to a plain namespace-scope function
@@ -64,10 +85,10 @@ def extract(ctx):
                 if other != 'operator()':
                     f = re.sub(r'(?<![\w:.>])%s\s*\(' % other, '%s__%s(' % (sname, oname), f) if not f.lstrip().startswith('Iter %s__%s(' % (sname, oname)) else \
                         f[:f.index('{')] + re.sub(r'(?<![\w:.>])%s\s*\(' % other, '%s__%s(' % (sname, oname), f[f.index('{'):])
-            for k_, v_ in INST.items():
-                f = re.sub(r'\b%s\b' % k_, v_, f)
+            for k_ in ('Key', 'Iter', 'Comp'):
+                f = re.sub(r'\b%s\b' % k_, INST[k_], f)
             fns.append(f)
-            log['R7 hoisted %s::%s -> %s (instantiated at Key=int, Iter=const int*)' % (sname, fname, new)] = 1
+            log['R7 hoisted %s::%s -> %s (instantiated at Key=%s)' % (sname, fname, new, INST['Key'])] = 1
     body = '\n'.join(fns)
     # order: lower_bound before call (call uses it)
     text2 = ('namespace souffle {\nnamespace detail {\n' + strip_comments(comp) + '\n}\n}\n#include "vx_btsearch.h"\nnamespace souffle {\nnamespace detail {\n' +
@@ -76,15 +97,15 @@ def extract(ctx):
     for sname in ('linear_search', 'binary_search'):
         for fn in ('lower_bound', 'upper_bound', 'call'):
             name = '%s__%s' % (sname, fn)
-            loops, _ = rw.find_loops(text2, r'const int\*\s+%s\s*\([^)]*\)\s*\{' % name, nth=0)
+            loops, _ = rw.find_loops(text2, r'const %s\*\s+%s\s*\([^)]*\)\s*\{' % (INST['Key'], name), nth=0)
             if sname == 'linear_search' and fn == 'call':
                 if loops:
                     raise ExtractError('linear_search::operator() is expected to delegate to lower_bound')
                 continue
             if len(loops) != 1:
                 raise ExtractError('%s: expected exactly one loop, found %d' % (name, len(loops)))
-            args = '&c, a, b' if sname == 'linear_search' else '&a, &c, &count, b'
-            hk.append(dict(func=r'const int\*\s+%s\s*\([^)]*\)\s*\{' % name, name=name, k=0, args=args))
+            args = '(const void**)&c, a, b' if sname == 'linear_search' else '(const void**)&a, (const void**)&c, &count, b'
+            hk.append(dict(func=r'const %s\*\s+%s\s*\([^)]*\)\s*\{' % (INST['Key'], name), name=name, k=0, args=args))
     # loop-modified sets from clang (on the member templates' instantiations)
     for sname, mod_expected in (('linear_search', ['c']), ('binary_search', ['a', 'c', 'count'])):
         for fn in ('lower_bound', 'upper_bound', 'operator()'):
@@ -95,10 +116,7 @@ def extract(ctx):
             if not set(mods) <= set(mod_expected):
                 raise ExtractError('loop of %s::%s modifies %s, hook havocs %s' % (sname, fn, mods, mod_expected))
     text2 = rw.r9_hooks(text2, hk, log)
-    ctx.write('extracted.hpp', text2)
-    ctx.rewrites.update(log)
-    ctx.dropped += ['strategy_selection / default_strategy / updater (type-level selection, no run-time code)',
-                    'everything in BTree.h: concurrent insertion, optimistic locking, node splitting, hints, iteration, size, chunking (lambdas, std::vector, 8 template parameters: outside the front end)']
+    ctx.write('extracted_%s.hpp' % tag, text2)
 
 
 def loop_mod_inst(docs, sname, fname):
@@ -143,15 +161,25 @@ def loop_mod_inst(docs, sname, fname):
 def harnesses(ctx):
     cpp = os.path.join(HERE, 'wrappers.cpp')
     c = [os.path.join(HERE, 'contracts.c')]
-    hs = [Harness('btsearch.comparator', 'harness_comparator', cpp=cpp, c=c, enforce='h_comparator', unwind=None, must_have=['postcondition'],
-                  clause='comparator<int>: sign of the three-way result agrees with <, ==, >', funcs=['souffle::detail::comparator<int>::operator()', '...::less', '...::equal'])]
+    hs = []
+    for tag in INSTS:
+        hs += harnesses_for(ctx, tag, cpp, c)
+    return hs
+
+
+def harnesses_for(ctx, tag, cpp, c):
+    sfx = '' if tag == 'int' else '.' + tag
+    D = [] if tag == 'int' else ['VX_KEY2']
+    keyname = 'int keys' if tag == 'int' else 'two-column keys compared lexicographically'
+    hs = [Harness('btsearch.comparator' + sfx, 'harness_comparator', cpp=cpp, c=c, enforce='h_comparator', unwind=None, must_have=['postcondition'], defines=D,
+                  clause='comparator<T>: sign of the three-way result agrees with <, ==, >', funcs=['souffle::detail::comparator<int>::operator()', '...::less', '...::equal'])]
     for s in ('linear_search', 'binary_search'):
         for f, what in (('lower_bound', 'least position whose element is >= key'), ('upper_bound', 'least position whose element is > key'),
                         ('call', 'a position holding the key if there is one, else the lower bound')):
             mh = ['postcondition'] + ([] if (s == 'linear_search' and f == 'call') else ['invariant base', 'invariant step'])
-            hs.append(Harness('btsearch.%s.%s' % (s, f), 'harness_%s_%s' % (s, f), cpp=cpp, c=c, enforce='h_%s__%s' % (s, f), unwind=2, must_have=mh,
+            hs.append(Harness('btsearch.%s.%s%s' % (s, f, sfx), 'harness_%s_%s' % (s, f), cpp=cpp, c=c, enforce='h_%s__%s' % (s, f), unwind=2, must_have=mh, defines=D,
                               replace=(['h_dummy'] if False else []),
-                              clause='%s::%s on every sorted node (duplicates allowed) and every key: %s; result within [a,b]; nothing written; terminates (variant)' % (s, 'operator()' if f == 'call' else f, what),
+                              clause='[' + keyname + '] ' + '%s::%s on every sorted node (duplicates allowed) and every key: %s; result within [a,b]; nothing written; terminates (variant)' % (s, 'operator()' if f == 'call' else f, what),
                               funcs=['souffle::detail::%s::%s' % (s, 'operator()' if f == 'call' else f)]))
     return hs
 
